@@ -310,8 +310,8 @@ def find_kernel_cex(ck, pkg, kind, r, m, outs):
             path = ck.save_replay({'property': ck.pid, 'pkg': pkg, 'cases': [{'kind': 'kernel', 'op': kind, 'a': '%064x' % a, 'b': '%064x' % b}]})
             ok, out = core.go_test(path, pkg=pkg)
             if not ok and 'MISMATCH' in out:
-                ck.violation('kernel:%s.%s' % (pkg, kind), 'internal/%s kernel %s computes a wrong or non-canonical result: %s' % (
-                    pkg, kind, [l.strip() for l in out.splitlines() if 'MISMATCH' in l][:1]), path)
+                ck.dep_violation(pkg, 'kernel:%s.%s' % (pkg, kind), 'internal/%s kernel %s computes a wrong or non-canonical result: %s' % (
+                    pkg, kind, [l.strip() for l in out.splitlines() if 'MISMATCH' in l][:1]), path, [a, b])
                 return
             ck.inconclusive.append('kernel %s.%s: DAG evaluation disagrees with reference but replay passes (translator problem)' % (pkg, kind))
             return
@@ -328,7 +328,7 @@ def find_kernel_cex(ck, pkg, kind, r, m, outs):
             path = ck.save_replay({'property': ck.pid, 'pkg': pkg, 'cases': [{'kind': 'kernel', 'op': kind, 'a': '%064x' % a, 'b': '%064x' % b}]})
             ok, out = core.go_test(path, pkg=pkg)
             if not ok and 'MISMATCH' in out:
-                ck.violation('kernel:%s.%s' % (pkg, kind), 'internal/%s kernel %s violates its contract: %s' % (pkg, kind, [l.strip() for l in out.splitlines() if 'MISMATCH' in l][:1]), path)
+                ck.dep_violation(pkg, 'kernel:%s.%s' % (pkg, kind), 'internal/%s kernel %s violates its contract: %s' % (pkg, kind, [l.strip() for l in out.splitlines() if 'MISMATCH' in l][:1]), path, [a, b])
                 return
     # stage 2: differential search in QF_BV against the reference copy of the kernel (harness/<pkg>_refkernels.go, the pinned
     # Fiat code, itself proved against the contract): the solver is asked for inputs on which the two differ
@@ -356,7 +356,7 @@ def find_kernel_cex(ck, pkg, kind, r, m, outs):
                 path = ck.save_replay({'property': ck.pid, 'pkg': pkg, 'cases': [{'kind': 'kernel', 'op': kind, 'a': '%064x' % a, 'b': '%064x' % b}]})
                 ok, out = core.go_test(path, pkg=pkg)
                 if not ok and 'MISMATCH' in out:
-                    ck.violation('kernel:%s.%s' % (pkg, kind), 'internal/%s kernel %s differs from its proved reference: %s' % (pkg, kind, [l.strip() for l in out.splitlines() if 'MISMATCH' in l][:1]), path)
+                    ck.dep_violation(pkg, 'kernel:%s.%s' % (pkg, kind), 'internal/%s kernel %s differs from its proved reference: %s' % (pkg, kind, [l.strip() for l in out.splitlines() if 'MISMATCH' in l][:1]), path, [a, b])
                     return
     except (core.EngineError, ValueError, KeyError) as e:
         ck.notes.append('differential search for %s.%s not possible: %s' % (pkg, kind, str(e)[:200]))
